@@ -44,6 +44,7 @@ class ObjGen:
         self.ts_max_digits = ts_max_digits
         self.allow_empty_str = allow_empty_str
         self.huge_ints = huge_ints
+        self.long_lists = False
         self.year_range = year_range
         self.shuffle_keys = shuffle_keys
         self.with_extensions = extensions
@@ -383,7 +384,12 @@ class ObjGen:
             if not markings:
                 o.pop("object_marking_refs", None)
             if granular and "granular_markings" in tbl["by_name"] and profile != "min" and (profile == "max" or rng.random() < 0.35):
+                if self.long_lists and isinstance(o.get("labels"), list) and rng.random() < 0.5:
+                    # a list long enough for two-digit indices (paths do not sort like numbers)
+                    o["labels"] = o["labels"] + ["label-%d" % k for k in range(12 - len(o["labels"]))]
                 self.add_granular_markings(o)
+                if self.long_lists and isinstance(o.get("labels"), list) and len(o["labels"]) >= 12:
+                    o["granular_markings"][0]["selectors"] = o["granular_markings"][0]["selectors"][:2] + [rng.choice(["labels.[10]", "labels.[11]"])]
         if self.shuffle_keys:
             items = list(o.items())
             rng.shuffle(items)
